@@ -1,5 +1,7 @@
 package h
 
+import "strings"
+
 func mentionsBack(n any) bool {
 	switch x := n.(type) {
 	case []any:
@@ -60,7 +62,13 @@ func stagedRun(q Node, tdoc Node, execs *int) Outcome {
 func checkC07(c Node) Verdict {
 	ties, _ := c["ties"].(bool)
 	c["ties"] = ties
-	v := CheckEngine(c, EngineOpts{Extra: []string{"fam:" + c["fam"].(string)}})
+	isJoin := false
+	for _, f := range Features(c["q"].(Node)) {
+		if strings.HasPrefix(f, "join:") {
+			isJoin = true // the rows of a join come in no particular order
+		}
+	}
+	v := CheckEngine(c, EngineOpts{Bag: isJoin, Extra: []string{"fam:" + c["fam"].(string)}})
 	want, wantErr := ExpectedRows(c)
 	v.Nontrivial = len(want) > 0
 	if !v.OK || wantErr {
@@ -69,12 +77,15 @@ func checkC07(c Node) Verdict {
 	q := c["q"].(Node)
 	sig := v.Sig
 	fam := c["fam"].(string)
-	if len(seq(q["with"])) > 0 || q["from"].(Node)["k"] == "derived" {
+	if q["k"] == "select" && (len(seq(q["with"])) > 0 || q["from"].(Node)["k"] == "derived") {
 		st := stagedRun(q, c["doc"].(Node), &v.Execs)
 		if st.Err != nil || st.Panic != nil {
 			return fail("staged", v.SQL, append(sig, "staged"), "staged evaluation failed while the composed query succeeded: %s", st.Describe())
 		}
 		ok := Equal(any(st.Rows), any(want))
+		if isJoin {
+			ok = BagEqual(st.Rows, want)
+		}
 		if ties {
 			ok = sameKeySeq(st.Rows, want, OrderKeys(q)) && BagEqual(st.Rows, want)
 		}
